@@ -9,6 +9,10 @@ use crate::core::consensus::slip::Slip;
 
 fn mk_tx(pk: SaitoPublicKey, sk: &SaitoPrivateKey, inputs: &[(u64, u64)], salt: u8) -> Transaction {
     let mut tx = Transaction::default();
+    if salt % 3 == 0 {
+        // the zero-amount input the wallet puts first when it has nothing else to put there
+        let mut z = Slip::default(); z.public_key = pk; z.amount = 0; tx.from.push(z);
+    }
     for (ord, amount) in inputs.iter() {
         let mut s = Slip::default(); s.public_key = pk; s.amount = *amount; s.block_id = 1; s.tx_ordinal = *ord; s.slip_index = 0;
         tx.from.push(s);
@@ -49,8 +53,8 @@ async fn reservation_index_contract() {
                 trace.push(format!("dropped-as-invalid(inputs={:?}) + delete(foreign block)", gone.from.iter().map(|s| s.tx_ordinal).collect::<Vec<_>>()));
             } else if action < 2 {
                 let tx = mk_tx(pk, &sk, &inputs, step as u8);
-                let keys: Vec<SaitoUTXOSetKey> = tx.from.iter().map(|s| s.utxoset_key).collect();
-                let conflict = pooled.iter().any(|p| p.from.iter().any(|s| keys.contains(&s.utxoset_key)));
+                let keys: Vec<SaitoUTXOSetKey> = tx.from.iter().filter(|s| s.amount > 0).map(|s| s.utxoset_key).collect();   // zero-amount inputs reserve nothing
+                let conflict = pooled.iter().any(|p| p.from.iter().any(|s| s.amount > 0 && keys.contains(&s.utxoset_key)));
                 let sig = tx.signature;
                 mempool.add_transaction(tx.clone()).await;
                 let admitted = mempool.transactions.contains_key(&sig);
@@ -65,7 +69,7 @@ async fn reservation_index_contract() {
                 trace.push(format!("delete(inputs={:?})", gone.from.iter().map(|s| s.tx_ordinal).collect::<Vec<_>>()));
             }
             for a in 0..pooled.len() { for b in (a + 1)..pooled.len() {
-                if pooled[a].from.iter().any(|s| pooled[b].from.iter().any(|x| x.utxoset_key == s.utxoset_key)) { witness(format!("run {}: two pooled transactions share an input: {:?}", run, trace)); }
+                if pooled[a].from.iter().any(|s| s.amount > 0 && pooled[b].from.iter().any(|x| x.amount > 0 && x.utxoset_key == s.utxoset_key)) { witness(format!("run {}: two pooled transactions share an input: {:?}", run, trace)); }
             } }
         }
     }
